@@ -148,7 +148,7 @@ def binop(it, op, a, b, node):
         return Unknown("arith")
     # string concatenation / repetition
     if op == "Add" and (is_strlike(a) or is_strlike(b)):
-        if is_strlike(a) and is_strlike(b):
+        if (is_strlike(a) or _symstr(a)) and (is_strlike(b) or _symstr(b)):
             return concat_strs(it, [a, b], node)
         it.may_raise("TypeError", node, "can only concatenate str to str", certain=True)
     if op == "Mult" and (isinstance(a, str) and isinstance(b, int) or isinstance(a, int) and isinstance(b, str)):
@@ -212,6 +212,10 @@ def binop(it, op, a, b, node):
     if op == "FloorDiv" and blo == bhi and blo > 0:
         return Interval(alo // blo, ahi // blo)
     raise _CE(f"interval binop {op}")
+
+
+def _symstr(v):
+    return isinstance(v, Sym) and v.kind in ("format", "concat", "str", "upper", "zfill", "resub", "replace", "slice")
 
 
 def _is_path(v):
@@ -573,7 +577,15 @@ def concat_strs(it, parts, node):
     if any(isinstance(p, Unknown) for p in parts):
         return Unknown("concat")
     if any(isinstance(p, Sym) for p in parts):
-        return Sym("concat", tuple(parts))
+        flat = []
+        for p in parts:
+            if isinstance(p, Sym) and p.kind == "concat":
+                flat.extend(p.args[0])
+            elif p != "":
+                flat.append(p)
+        if len(flat) == 1:
+            return flat[0]
+        return Sym("concat", tuple(flat))
     if any(isinstance(p, SStr) for p in parts):
         if all(isinstance(p, (str, SStr)) for p in parts):
             return SStr.concat(parts)
@@ -764,13 +776,17 @@ def it_symbolic_key(it, table, key, node):
         it.may_raise("KeyError", node, f"key {known!r}", certain=True, witness=known)
     if hasattr(th, "register_keyset"):
         th.register_keyset(id(table), keys)
-    feasible = []
-    for k in keys:
-        d = th.decide(Sym("cmp", "Eq", key, k))
-        if d is True:
-            return table[k]
-        if d is None:
-            feasible.append(k)
+    feasible = None
+    if hasattr(th, "feasible_keys"):
+        feasible = th.feasible_keys(key, keys)
+    if feasible is None:
+        feasible = []
+        for k in keys:
+            d = th.decide(Sym("cmp", "Eq", key, k))
+            if d is True:
+                return table[k]
+            if d is None:
+                feasible.append(k)
     miss = Sym("in", key, ("keys", id(table)))
     if hasattr(th, "register_keyset"):
         th.register_keyset(id(table), keys)
